@@ -2,6 +2,7 @@ package main
 
 import (
 	"fmt"
+	"sync/atomic"
 	"net"
 	"reflect"
 	"time"
@@ -228,7 +229,17 @@ func projOpt(o dhcpv6.Option, tab string) map[string]any {
 	return map[string]any{"c": c, "v": []any{B(o.ToBytes())}, "untyped": true}
 }
 
+// projDepth counts the relay levels of the value being projected: the JSON reader of the trace specifications nests 255
+// levels at most (four per relay level); a deeper value - no generator builds one - is shown as a marker no
+// specification value equals
+var projDepth atomic.Int32 // (summed over the few goroutines of the concurrent-decoder stages, whose inputs are shallow)
+
 func proj6(d dhcpv6.DHCPv6) map[string]any {
+	depth := projDepth.Add(1)
+	defer projDepth.Add(-1)
+	if depth > 56 {
+		return map[string]any{"mt": -2, "too-deep-to-show": true}
+	}
 	switch m := d.(type) {
 	case *dhcpv6.Message:
 		return map[string]any{"mt": int(m.MessageType), "xid": B(m.TransactionID[:]), "opts": projOpts(m.Options.Options, "main")}
